@@ -77,6 +77,11 @@ CHECKS["C15"] = ("fault_enumeration",
    "Corpus: shortest witness of every xml tokenizer control state x every lexeme of a 41-symbol alphabet x 3 closers, plus hand-listed strings around character references, CDATA, PI, DOCTYPE. Every schedule with <=2 cuts (all chunkings up to 6 chars; <=3 / 11 thorough) x {default, exact_errors, discard_bom=false}: token stream and model-DOM tree equal to the one-chunk default run. Absolute rules on every baseline: no U+000D and no U+0000 delivered anywhere. Metamorphic: replacing every LF by CR or CRLF, and every NUL by U+FFFD, must not change the tree (so a line break next to a character reference is neither lost nor doubled). U+FEFF dropped only as the first character of the stream.",
    "No XML5 reference model (the property is differential). Alphabet-bounded.",
    "DESIGN.md §3 C15", "xml + E3")
+CHECKS["C10"] = ("exploration",
+   "exhaustive sweep of byte strings over boundary alphabets x all chunkings against whole-input lossy decodes",
+   "Utf8LossyDecoder: every byte string of length <=5 (6 thorough) over a 17-byte alphabet covering every lead/continuation class of the UTF-8 table, under all 2^(n-1) chunkings plus an empty chunk at every position of every 2-chunk split: concatenated output == String::from_utf8_lossy, error count == number of U+FFFD, every delivered tendril valid UTF-8. from_utf8(): parse tree (html5ever and xml5ever, model sink) of every byte string <=4 (5) over a 12-byte markup alphabet under all chunkings == tree of the lossy string, with one sink error per replacement. LossyDecoder: all 39 non-UTF-8 encoding_rs encodings over per-family alphabets (ASCII, lead, trail, invalid trail, ESC sequences, surrogate halves, BOM prefixes) up to length 4 (5), all chunkings, == Encoding::decode one-shot, including everything still pending at end of stream.",
+   "Trusted base: std's from_utf8_lossy and encoding_rs's one-shot decode. Byte space is alphabet-bounded (3-17 bytes per family).",
+   "DESIGN.md §3 C10", "E4 sweep")
 PENDING = {}
 def main():
     checks = []
